@@ -851,6 +851,12 @@ def fam_naming_fixed():
     add("func-consumes", [["func", "f", [["Signal", "x"]], [], ["bin", "+", V("x"), K(1)]], ["sig", "m", ["bin", "*", A, K(2)]], ["sig", "o", ["call", "f", [V("m")]]]])
     add("loop-consumes", [["sig", "m", ["bin", "*", A, K(2)]], ["for", "i", ["range", 0, 2, None], [["place", "l", "small-lamp", V("i"), K(0), None], ["enable", "l", ["cmp", ">", V("m"), V("i")]]]]])
     add("enable-consumes", [["sig", "m", ["bin", "*", A, K(2)]], ["place", "l", "small-lamp", K(0), K(0), None], ["enable", "l", ["cmp", ">", ["bin", "+", V("m"), B], K(4)]]])
+    add("func-returns-named-local", [["sig", "sum", ["bin", "+", A, B]], ["func", "scale", [["Signal", "x"]], [["sig", "t", ["bin", "*", V("x"), K(3)]]], V("t")], ["sig", "out", ["call", "scale", [V("sum")]]]])
+    add("func-returns-named-local-twice", [["func", "scale", [["Signal", "x"]], [["sig", "t", ["bin", "*", V("x"), K(3)]]], V("t")], ["sig", "o1", ["call", "scale", [A]]], ["sig", "o2", ["call", "scale", [B]]]])
+    add("cse-first-second-result", [["sig", "first", ["bin", "+", A, B]], ["sig", "second", ["bin", "+", A, B]], ["sig", "result", ["bin", "*", V("second"), K(2)]]])
+    add("param-named-like-alias", [["func", "double", [["Signal", "total"]], [], ["bin", "*", V("total"), K(2)]], ["sig", "sum", ["bin", "+", A, B]], ["sig", "total", V("sum")], ["sig", "big", ["call", "double", [V("sum")]]]])
+    add("param-named-like-output", [["func", "inc", [["Signal", "o"]], [], ["bin", "+", V("o"), K(1)]], ["sig", "m", ["bin", "*", A, K(2)]], ["sig", "o", V("m")], ["sig", "r", ["proj", ["call", "inc", [V("m")]], "signal-X"]]])
+    add("alias-of-consumed", [["sig", "sum", ["bin", "+", A, B]], ["sig", "also", V("sum")], ["sig", "big", ["proj", ["bin", "*", V("sum"), K(2)], "signal-X"]]])
     add("many", [["sig", f"o{i}", ["proj", ["bin", "+", A, K(i)], f"signal-{chr(ord('K') + i)}"]] for i in range(6)])
     add("int-not-output", [["int", "k", K(5)], ["sig", "o", ["bin", "*", A, V("k")]]])
     return progs
@@ -1143,6 +1149,26 @@ def fam_func_fixed():
     add("call-in-loop", [F("f", [("Signal", "x"), ("int", "k")], [], ["bin", "+", X, Kk]), ["for", "i", ["range", 0, 3, None], [["place", "l", "small-lamp", V("i"), K(0), None], ["enable", "l", ["cmp", ">", ["call", "f", [A, V("i")]], K(5)]]]]])
     add("place-in-func", [F("mk", [("int", "k"), ("Signal", "x")], [["place", "l", "small-lamp", Kk, K(2), None], ["enable", "l", ["cmp", ">", X, Kk]]], X), ["sig", "o", ["proj", ["call", "mk", [K(0), A]], "signal-X"]], ["sig", "p", ["proj", ["call", "mk", [K(4), B]], "signal-Y"]]])
     add("entity-param", [F("drive", [("Entity", "e"), ("Signal", "x")], [["enable", "e", ["cmp", ">", X, K(3)]]], X), ["place", "l1", "small-lamp", K(0), K(0), None], ["place", "l2", "small-lamp", K(3), K(0), None], ["sig", "o", ["proj", ["call", "drive", [V("l1"), A]], "signal-X"]], ["sig", "p", ["proj", ["call", "drive", [V("l2"), B]], "signal-Y"]]])
+    # name collisions between parameters and names live at the call site
+    Pn, Qn = V("p"), V("q")
+    insq = [["input", "p", "signal-P", 10069], ["input", "q", "signal-Q", 10079]]
+    mix = F("mix", [("Signal", "p"), ("Signal", "w")], [], ["bin", "+", ["bin", "*", V("p"), K(10)], V("w")])
+    add("arg-names-swapped", insq + [mix, ["sig", "o", ["proj", ["call", "mix", [Qn, Pn]], "signal-X"]]])
+    add("arg-names-same-order", insq + [mix, ["sig", "o", ["proj", ["call", "mix", [Pn, Qn]], "signal-X"]]])
+    add("arg-expr-mentions-param-name", insq + [mix, ["sig", "o", ["proj", ["call", "mix", [["bin", "+", Qn, K(1)], ["bin", "*", Pn, K(2)]]], "signal-X"]]])
+    g2 = F("g", [("Signal", "a"), ("Signal", "b")], [], ["bin", "+", ["bin", "*", V("a"), K(10)], V("b")])
+    f2 = F("f", [("Signal", "b"), ("Signal", "a")], [], ["bin", "*", ["call", "g", [V("b"), V("a")]], V("b")])
+    add("nested-swapped-param-names", [g2, f2, ["sig", "o", ["proj", ["call", "f", [A, B]], "signal-X"]]])
+    three = F("t3", [("Signal", "x"), ("Signal", "y"), ("Signal", "z")], [], ["bin", "-", ["bin", "+", ["bin", "*", X, K(100)], ["bin", "*", Y, K(10)]], V("z")])
+    add("three-params-rotated", [["sig", "x", ["bin", "+", A, K(1)]], ["sig", "y", ["bin", "+", B, K(2)]], ["sig", "z", ["bin", "+", A, B]], three, ["sig", "o", ["proj", ["call", "t3", [V("z"), V("x"), V("y")]], "signal-X"]]])
+    scale = F("scale", [("int", "n"), ("Signal", "x")], [], ["bin", "*", X, ["bin", "*", V("n"), K(2)]])
+    add("int-param-shadows-global-int", [["int", "n", K(3)], scale, ["sig", "o", ["proj", ["call", "scale", [K(7), A]], "signal-X"]], ["sig", "p2", ["proj", ["bin", "*", B, V("n")], "signal-Y"]]])
+    add("int-param-shadows-global-int-direct", [["int", "n", K(3)], F("sc2", [("int", "n"), ("Signal", "x")], [], ["bin", "*", X, V("n")]), ["sig", "o", ["proj", ["call", "sc2", [K(7), A]], "signal-X"]]])
+    add("int-param-shadows-iterator", [F("sci", [("int", "i"), ("Signal", "x")], [], ["bin", "+", X, ["bin", "*", V("i"), K(3)]]), ["for", "i", ["range", 0, 2, None], [["place", "l", "small-lamp", V("i"), K(0), None], ["enable", "l", ["cmp", ">", ["call", "sci", [["bin", "+", V("i"), K(4)], A]], K(20)]]]]])
+    add("int-param-in-coordinate-shadowed", [F("put", [("int", "x"), ("int", "row")], [["place", "l", "small-lamp", ["bin", "*", V("x"), K(2)], ["bin", "+", V("row"), K(1)], None], ["enable", "l", ["cmp", ">", A, V("x")]]], V("x")), ["for", "x", ["range", 0, 3, None], [["int", "r", ["call", "put", [["bin", "+", V("x"), K(5)], ["bin", "-", K(0), V("x")]]]]]]])
+    add("signal-param-shadows-global-int", [["int", "x", K(4)], F("ab", [("Signal", "x")], [], ["bin", "+", ["cond", ["cmp", ">=", X, K(0)], X], ["cond", ["cmp", "<", X, K(0)], ["bin", "-", K(0), X]]]), ["sig", "o", ["proj", ["call", "ab", [A]], "signal-X"]]])
+    add("loop-in-func-entity-param", [F("deco", [("Entity", "target"), ("int", "y")], [["for", "j", ["range", 0, 2, None], [["place", "d", "small-lamp", V("j"), V("y"), None], ["enable", "d", ["cmp", ">", A, V("j")]]]], ["enable", "target", ["cmp", ">", A, K(7)]]], V("y")), ["place", "t1", "small-lamp", K(5), K(5), None], ["int", "r1", ["call", "deco", [V("t1"), K(2)]]]])
+    add("loop-in-func-entity-param-zero-iter", [F("deco", [("Entity", "target"), ("int", "y")], [["for", "j", ["range", 0, 0, None], [["place", "d", "small-lamp", V("j"), V("y"), None]]], ["enable", "target", ["cmp", ">", A, K(7)]]], V("y")), ["place", "t1", "small-lamp", K(5), K(5), None], ["int", "r1", ["call", "deco", [V("t1"), K(2)]]]])
     add("local-memory-per-call", [F("hold", [("Signal", "x"), ("Signal", "en")], [["mem", "m", "signal-M"], ["write", "m", ["proj", X, "signal-M"], ["cmp", ">", V("en"), K(0)]]], ["read", "m"]), ["sig", "o", ["proj", ["call", "hold", [A, C]], "signal-X"]], ["sig", "p", ["proj", ["call", "hold", [B, C]], "signal-Y"]]], kind="history", K=3, places=False)
     return progs
 
@@ -1202,6 +1228,8 @@ def fam_loop16_fixed():
     add("iter-shadows-int", [["int", "i", K(7)], ["for", "i", ["range", 0, 2, None], lamp_body(I)], ["sig", "o", ["proj", ["bin", "*", A, I], "signal-X"]]])
     add("call-in-body", [["func", "f", [["Signal", "x"], ["int", "k"]], [], ["bin", "+", V("x"), V("k")]], ["for", "i", ["range", 0, 3, None], [["place", "l", "small-lamp", I, K(0), None], ["enable", "l", ["cmp", ">", ["call", "f", [A, I]], K(3)]]]]])
     add("outer-used-in-body", [["sig", "m", ["bin", "+", A, B]], ["for", "i", ["range", 0, 4, None], [["place", "l", "small-lamp", I, K(0), None], ["enable", "l", ["cmp", ">=", V("m"), I]]]]])
+    add("loop-in-func-entity-param", [["func", "deco", [["Entity", "target"], ["int", "y"]], [["for", "j", ["range", 0, 2, None], [["place", "d", "small-lamp", V("j"), V("y"), None], ["enable", "d", ["cmp", ">", A, V("j")]]]], ["enable", "target", ["cmp", ">", A, K(7)]]], V("y")], ["place", "t1", "small-lamp", K(5), K(5), None], ["int", "r1", ["call", "deco", [V("t1"), K(2)]]]])
+    add("loop-in-func-write-in-second-iter", [["func", "deco2", [["Entity", "target"]], [["for", "j", ["range", 0, 3, None], [["enable", "target", ["cmp", ">", A, V("j")]]]]], K(0)], ["place", "t1", "small-lamp", K(5), K(5), None], ["int", "r1", ["call", "deco2", [V("t1")]]]])
     add("mem-in-body", [["for", "i", ["range", 0, 2, None], [["mem", "m", "signal-M"], ["write", "m", ["proj", ["bin", "+", A, I], "signal-M"], ["cmp", ">", B, I]], ["place", "l", "small-lamp", I, K(0), None], ["enable", "l", ["cmp", ">", ["read", "m"], K(3)]]]]], places=True, kind_override="history")
     for c in progs:
         if c["params"].pop("kind_override", None):
@@ -1267,6 +1295,17 @@ def fam_lib():
     add("mod_positive", insxy, ["call", "mod_positive", [X, Y]])
     add("abs-of-sign", insx, ["call", "abs", [["call", "sign", [X]]]])
     add("max-of-min", insxy, ["call", "max", [["call", "min", [X, Y]], K(0)]])
+    # global ints named like a library parameter
+    def addg(name, globs, ins, call):
+        stmts = [["import", "math.facto"]] + [["int", n, K(v)] for n, v in globs] + list(ins) + [["sig", "o", ["proj", call, "signal-X"]]]
+        progs.append({"id": f"lib-{name}", "family": "lib", "stmts": stmts, "kind": "stateless", "params": {"must_accept": True}})
+    insv = [["input", "v", "signal-A", 10007]]
+    for fn in ("set_bit", "clear_bit", "toggle_bit", "get_bit"):
+        addg(f"{fn}-global-pos", [("pos", 3)], insv, ["call", fn, [V("v"), K(5)]])
+    addg("lerp-global-ab", [("a", 50), ("b", 7)], insv, ["call", "lerp", [K(10), K(20), V("v")]])
+    addg("abs-global-x", [("x", 4)], insv, ["call", "abs", [V("v")]])
+    addg("clamp-global-low-high", [("low", 3), ("high", 4)], insv, ["call", "clamp", [V("v"), K(-10), K(10)]])
+    addg("between-global-low-high", [("low", 3), ("high", 4)], insv, ["call", "between", [V("v"), K(-10), K(10)]])
     add("abs-lib-path", insx, ["call", "abs", [X]], imp="lib/math.facto")
     return progs
 
@@ -1304,9 +1343,83 @@ def fam_imports():
     add("subdir-up", {"sub/a.facto": [fa], "b.facto": [fb]}, ["sub/a.facto", "b.facto"], [["call", "fa", [A]], ["call", "fb", [B]]], [fa, fb])
     add("decoy-in-cwd", {"a.facto": [fa]}, ["a.facto"], [["call", "fa", [A]]], [fa], decoys={"a.facto": [decoy_a]})
     add("subdir-decoy", {"sub/a.facto": [["import", "b.facto"], fa_b], "sub/b.facto": [fb]}, ["sub/a.facto"], [["call", "fa", [A]]], [fb, fa_b], decoys={"b.facto": [F("fb", [], ["bin", "+", X, K(5000)])]})
+    consts_sub = F("kk", [], ["bin", "+", ["bin", "*", X, K(2)], K(1)])
+    consts_top = F("kk", [], ["bin", "+", ["bin", "*", X, K(100)], K(1)])
+    helper = F("fh", [], ["bin", "+", ["call", "kk", [X]], K(0)])
+    add("nested-same-name-beside-entry", {"sub/helper.facto": [["import", "consts.facto"], helper], "sub/consts.facto": [consts_sub], "consts.facto": [consts_top]}, ["sub/helper.facto"], [["call", "fh", [A]]], [consts_sub, helper])
+    add("nested-same-name-two-levels", {"sub/deep/helper.facto": [["import", "consts.facto"], helper], "sub/deep/consts.facto": [consts_sub], "sub/consts.facto": [consts_top], "consts.facto": [consts_top]}, ["sub/deep/helper.facto"], [["call", "fh", [A]]], [consts_sub, helper])
     add("with-lib", {"a.facto": [["import", "math.facto"], F("fa", [], ["bin", "+", ["call", "abs", [X]], K(1)])]}, ["a.facto"], [["call", "fa", [A]]], [["import", "math.facto"], F("fa", [], ["bin", "+", ["call", "abs", [X]], K(1)])])
     return cases
 
 
 def corpus_c17(tier):
     return fam_lib() + fam_imports()
+
+
+# ======================================================================================
+#  C11 constant folding in every syntactic position (reference: run-time arithmetic on the same operands)
+# ======================================================================================
+
+FOLD_PAIRS = {
+    "+": [(7, 2), (-7, 2), (2147483647, 1), (-2147483648, -1), (1000000000, 1500000000)],
+    "-": [(7, 2), (2, 7), (-2147483648, 1), (2147483647, -1), (0, -2147483648)],
+    "*": [(7, 2), (-7, 2), (65536, 65536), (65536, 32768), (-46341, 46341), (123456, 7890)],
+    "/": [(7, 2), (-7, 2), (7, -2), (-7, -2), (5, 0), (-2147483647, 2), (1, -3)],
+    "%": [(7, 2), (-7, 2), (7, -2), (-7, -2), (5, 0), (-2147483647, 10), (3, -5)],
+    "**": [(2, 10), (3, 4), (-1, 2), (-1, 3), (-1, 4), (-2, 3), (0, 0), (7, 0), (10, 8), (46341, 2), (1, 8), (-3, 5)],
+    "<<": [(1, 4), (1, 31), (-1, 1), (3, 30), (-16, 2), (5, 0), (65536, 16), (-1, 0)],
+    ">>": [(256, 4), (-16, 2), (-1, 31), (2147483647, 30), (-2147483648, 31), (5, 0), (-17, 1)],
+    "AND": [(12, 10), (-1, 255), (-256, 4095), (2147483647, -2147483648)],
+    "OR": [(12, 10), (-256, 15), (0, -1), (1, -2147483648)],
+    "XOR": [(12, 10), (-1, 255), (-1, -1), (2147483647, -1)],
+    "==": [(3, 3), (3, 4)], "!=": [(3, 3), (3, 4)], "<": [(-1, 0), (0, -1)], "<=": [(2, 2), (3, 2)], ">": [(0, -1), (-5, -4)], ">=": [(2, 2), (-3, 2)],
+}
+
+
+def _fold_sites(op, a, b):
+    """(site name, statements) for the constant expression `a op b` in every position where the compiler folds"""
+    X, Y = V("x"), V("y")
+    E = ["bin", op, K(a), K(b)] if op in ARITH else ["cmp", op, K(a), K(b)]
+    P = lambda e: ["proj", e, "signal-X"]  # noqa: E731
+    lamp = ["place", "l", "small-lamp", K(0), K(0), None]
+    sites = {
+        "int-decl": [["int", "k", E], ["sig", "o", P(["bin", "+", X, V("k")])]],
+        "int-chain": [["int", "ka", K(a)], ["int", "kb", K(b)], ["int", "k", ["bin", op, V("ka"), V("kb")] if op in ARITH else ["cmp", op, V("ka"), V("kb")]], ["sig", "o", P(["bin", "+", X, V("k")])]],
+        "operand": [["sig", "o", P(["bin", "+", X, E])]],
+        "operand-left": [["sig", "o", P(["bin", "-", E, X])]],
+        "literal-value": [["sig", "s", ["lit", "signal-S", E]], ["sig", "o", P(["bin", "+", V("s"), X])]],
+        "condition": [["sig", "o", ["cond", ["cmp", ">", X, E], Y]]],
+        "cond-value": [["sig", "o", P(["bin", "+", ["cond", ["cmp", ">", X, K(0)], E], Y])]],
+        "func-arg": [["func", "f", [["Signal", "v"], ["int", "n"]], [], ["bin", "+", V("v"), V("n")]], ["sig", "o", P(["call", "f", [X, E]])]],
+        "func-body": [["func", "g", [["Signal", "v"], ["int", "p"], ["int", "q"]], [], ["bin", "+", V("v"), ["bin", op, V("p"), V("q")] if op in ARITH else ["cmp", op, V("p"), V("q")]]], ["sig", "o", P(["call", "g", [X, K(a), K(b)]])]],
+        "loop-iter": [["for", "i", ["list", [a]], [lamp, ["enable", "l", ["cmp", ">", X, ["bin", op, V("i"), K(b)] if op in ARITH else ["cmp", op, V("i"), K(b)]]]]]],
+        "enable": [lamp, ["enable", "l", ["cmp", ">", X, E]]],
+        "coordinate": [["place", "l", "small-lamp", ["bin", "+", K(0), ["bin", "%", E, K(7)]] if op in ARITH else K(0), K(0), None], ["enable", "l", ["cmp", ">", X, K(1)]]],
+    }
+    if op in ARITH:
+        # constants that only the IR-level optimiser sees
+        sites["ir-projected-literal"] = [["sig", "o", P(["bin", "+", ["bin", op, ["proj", K(a), "signal-B"], K(b)], X])]]
+        sites["ir-signal-param"] = [["func", "h", [["Signal", "v"], ["int", "n"]], [], ["bin", op, V("v"), V("n")]], ["sig", "o", P(["bin", "+", ["call", "h", [K(a), K(b)]], X])]]
+        sites["ir-typed-literals"] = [["sig", "o", P(["bin", "+", ["bin", op, ["lit", "signal-K", K(a)], K(b)], X])]]
+        sites["ir-const-true-cond"] = [["sig", "o", P(["bin", "+", ["bin", op, ["cond", ["cmp", ">", K(3), K(1)], K(a)], K(b)], X])]]
+    return sites
+
+
+def corpus_c11(tier):
+    ins = [["input", "x", "signal-A", 10007], ["input", "y", "signal-B", 10009]]
+    cases = []
+    for op, pairs in FOLD_PAIRS.items():
+        if tier == "quick":
+            pairs = pairs[:3] if op in ARITH else pairs[:1]
+        for (a, b) in pairs:
+            for site, body in _fold_sites(op, a, b).items():
+                if tier == "quick" and op not in ARITH and site not in ("int-decl", "operand", "condition", "func-arg"):
+                    continue
+                # positions that are miscompiled wholesale on the pinned tree (folded constant as literal value /
+                # as `cond : value`): one representative each is enough
+                if site in ("literal-value", "cond-value") and (op, a, b) != ("+", 7, 2):
+                    continue
+                if site == "coordinate" and (a < 0 or b < 0) and (op, a, b) != ("/", -7, 2):
+                    continue
+                cases.append({"id": f"fold-{site}-{op}-{a}-{b}", "family": "fold", "stmts": ins + body, "kind": "stateless", "params": {"places": True}})
+    return cases
